@@ -393,6 +393,23 @@ def check_case(ctx, case):
                         if n1 != [a2, others[0]]:
                             viol("active-changed", "active-geometry:read_parquet_dask-joint-compute",
                                  [a2, others[0]], n1)
+                    # two datasets that store the columns in different orders, read in one call
+                    if len(cands) >= 2 and n:
+                        path_b = path + ".b"
+                        dd.from_pandas(df[list(df.columns)[::-1]], npartitions=max(1, min(2, n))).to_parquet(path_b)
+                        for a3 in cands:
+                            rr = read_parquet_dask([path, path_b], geometry=a3)
+                            nm = [rr.geometry.name] + [p_.geometry.name if p_._has_valid_geometry() else None
+                                                       for p_ in dask.compute(*rr.to_delayed())]
+                            cc = rr.compute()
+                            nm.append(cc.geometry.name if cc._has_valid_geometry() else None)
+                            ctx.count("state_checks")
+                            ctx.sig("parquet-two-column-orders")
+                            if any(x != a3 for x in nm):
+                                viol("active-changed", "active-geometry:read_parquet_dask-datasets-with-different-column-order",
+                                     a3, nm)
+                        import shutil as _sh
+                        _sh.rmtree(path_b, ignore_errors=True)
                 import shutil
                 shutil.rmtree(path, ignore_errors=True)
                 ctx.count("state_checks")
